@@ -1231,6 +1231,7 @@ def run_c14(ctx):
         t, _ = gen.random_program(rng)
         progs.append(t)
     progs += [t for _, t in gen.adversarial_programs()]
+    progs += [t for n_, t in corpus_programs() if "regress" in n_]
     reqs = [("analyze", f"p{k}", t, []) for k, t in enumerate(progs)]
     # baseline: model (pure function) and implementation, stream order, seed 0
     m, base = corr.run_both(reqs, shards=8)
@@ -1239,6 +1240,8 @@ def run_c14(ctx):
         "shuffled history, hash seed 4242": (rng.sample(reqs, len(reqs)), {"PYTHONHASHSEED": "4242"}),
         "detectors reversed and re-run, hash seed 7": (reqs, {"PYTHONHASHSEED": "7", "VERIF_DETECTOR_ORDER": "reversed_twice"}),
         "single long-lived process": (reqs, {"PYTHONHASHSEED": "99", "VERIF_SINGLE": "1"}),
+        "perturbed allocation history, hash seed 3": (reqs, {"PYTHONHASHSEED": "3", "VERIF_ALLOC_NOISE": "1"}),
+        "perturbed allocation history, hash seed 5": (list(reversed(reqs)), {"PYTHONHASHSEED": "5", "VERIF_ALLOC_NOISE": "2"}),
     }
     ncmp = 0
     for vname, (rq, env) in variants.items():
